@@ -2,6 +2,7 @@ package main
 
 import (
 	"bufio"
+	"bytes"
 	"crypto/sha1"
 	"encoding/hex"
 	"encoding/json"
@@ -19,13 +20,13 @@ import (
 
 // Mismatch is one disagreement between the real code and the specification.
 type Mismatch struct {
-	Case  int             `json:"case"`            // index of the row in the cases file
-	Step  int             `json:"step"`            // index of the step inside the behaviour (-1: whole case)
-	Props []string        `json:"props"`           // properties for which this disagreement is a violation
-	What  string          `json:"what"`            // short machine-readable tag, used to match known findings
-	Want  interface{}     `json:"want,omitempty"`  // what the specification says
-	Got   interface{}     `json:"got,omitempty"`   // what the code did
-	Row   json.RawMessage `json:"row,omitempty"`   // the case itself (for the replay file)
+	Case  int             `json:"case"`           // index of the row in the cases file
+	Step  int             `json:"step"`           // index of the step inside the behaviour (-1: whole case)
+	Props []string        `json:"props"`          // properties for which this disagreement is a violation
+	What  string          `json:"what"`           // short machine-readable tag, used to match known findings
+	Want  interface{}     `json:"want,omitempty"` // what the specification says
+	Got   interface{}     `json:"got,omitempty"`  // what the code did
+	Row   json.RawMessage `json:"row,omitempty"`  // the case itself (for the replay file)
 	Note  string          `json:"note,omitempty"`
 }
 
@@ -228,6 +229,23 @@ func sortedKeys(m map[string]struct{}) []string {
 	}
 	sort.Strings(out)
 	return out
+}
+
+// escapeCtl spells DEL and the C1 controls of a JSON text as \u00XX (the same document, a spelling that
+// YAML-based readers accept too): generated documents are about Spec content, not about raw control bytes
+func escapeCtl(b []byte) []byte {
+	if !bytes.ContainsAny(b, "\x7f\xc2") {
+		return b
+	}
+	var out bytes.Buffer
+	for _, r := range string(b) {
+		if r >= 0x7f && r <= 0x9f {
+			fmt.Fprintf(&out, "\\u%04x", r)
+		} else {
+			out.WriteRune(r)
+		}
+	}
+	return out.Bytes()
 }
 
 func jsonOf(v interface{}) string {
